@@ -7,7 +7,7 @@ env = dict(os.environ, OMPI_ALLOW_RUN_AS_ROOT="1", OMPI_ALLOW_RUN_AS_ROOT_CONFIR
 def run(np_, cfg, omp=1):
     e = dict(env, OMP_NUM_THREADS=str(omp))
     cmd = ["mpiexec", "--oversubscribe", "-np", str(np_), exe] + [str(x) for x in cfg]
-    try: out = subprocess.run(cmd, stdout=subprocess.PIPE, stderr=subprocess.DEVNULL, text=True, env=e, timeout=180).stdout
+    try: out = subprocess.run(cmd, stdout=subprocess.PIPE, stderr=subprocess.DEVNULL, text=True, env=e, timeout=60).stdout
     except subprocess.TimeoutExpired: return cmd, None
     d = {}; done = set(); thrown = {}
     for l in out.splitlines():
@@ -26,9 +26,10 @@ for cfg in cfgs:
     if r1 is None or 0 not in r1[1]: res["violations"].append(dict(key="C06:real-mpi:reference-run-failed", what="single-rank real run failed", case=" ".join(cmd1))); continue
     ref = r1[0][0]
     for np_ in nps:
+        if sum(1 for v in res["violations"] if ":hang:" in v["key"]) >= 2: break      # two confirmed hangs are enough; each costs a full timeout
         for omp in ([1, 4] if np_ == 2 else [1]):
             cmd, r = run(np_, cfg, omp); res["runs"] += 1; case = "OMP_NUM_THREADS=%d " % omp + " ".join(cmd)
-            if r is None: res["violations"].append(dict(key="C06:real-mpi:hang:np=%d:split=%d" % (np_, cfg[4]), what="real mpiexec run did not terminate within 180 s", case=case)); continue
+            if r is None: res["violations"].append(dict(key="C06:real-mpi:hang:np=%d:split=%d" % (np_, cfg[4]), what="real mpiexec run did not terminate within 60 s", case=case)); continue
             d, done, thrown = r; bad = None
             for p in range(np_):
                 if p in thrown: bad = "rank %d threw: %s" % (p, thrown[p]); break
